@@ -324,12 +324,16 @@ var wireSpecs = []wireSpec{
 	{"op", "Circle.At", []wireFact{{"member", []string{"return util.Ring.At(p0.r,p1)"}, "a slot of the circle is not handed out as it stands in the ring (a rebuilt member can lose the enharmonic spellings of the slot)"}}},
 	{"op", "Circle.All", []wireFact{{"members", []string{"return util.Ring.All(p0.r)"}, "the circle's members are not listed as they stand in the ring"}}},
 	{"op", "Circle.Index", []wireFact{{"by-key", []string{"call util.Set.In(op.CircleMember.Keys(util.Ring.At(p0.r,i)),p1)"}, "a key's slot is not found by looking for the key among every spelling of every slot"}}},
+	{"cmd", "readFileOrStdinFromArgs", []wireFact{
+		{"argument", []string{"call os.Open(p0[0])"}, "the FILE argument is not opened under the name it was given (rewriting it first - making it absolute, cleaning it - also rewrites `-`, which then no longer means standard input)"},
+		{"stdin", []string{"call call:p1(os.Stdin)"}, "no argument does not read standard input"},
+	}},
 	{"input/ast", "NewLexer", []wireFact{
 		{"reader", []string{"call github.com/berquerant/ybase.NewReader(p0,"}, "the scanner does not read the text it was given as it is (something rewrites or filters the input before it is tokenised: what a symbol or a metadata text says is no longer what was written)"},
 		{"scan", []string{"bound:input/ast.LexScanner.ScanFunc(var<input/ast.LexScanner>)"}, "the scanner is not driven by LexScanner.ScanFunc"},
 	}},
 	{"cmd", "getKey", []wireFact{{"as-given", []string{"call op.ParseKey(github.com/spf13/pflag.FlagSet.GetString(github.com/spf13/cobra.Command.Flags(p0),\"key\")#0)"}, "--key is not parsed as it was given (re-cased, trimmed or rewritten first: a spelling the parser accepts may not survive that)"}}},
-	{"cmd", "getRootNote", []wireFact{{"flag", []string{"call note.ParseNote("}, "the root flag is not parsed as a note"}}},
+	{"cmd", "getRootNote", []wireFact{{"flag", []string{"call note.ParseNote(github.com/spf13/pflag.FlagSet.GetString(github.com/spf13/cobra.Command.Flags(p0),\"root\")#0)"}, "the --root value is not parsed as it was given (re-cased or rewritten first: `Bb` upper-cased is no note)"}}},
 	{"cmd", "newChordMap", []wireFact{{"build", []string{"call chord.Builder.Build("}, "the dictionary is not built (and validated) from the builder"}}},
 }
 
@@ -656,6 +660,32 @@ func ruleWire(c *Ctx) {
 			c.site(1)
 			c.check(hasFact(facts, "call desc.Chord.Describe(", "github.com/spf13/pflag.FlagSet.GetBool(github.com/spf13/cobra.Command.Flags(p0),\"precedeSharp\")#0)"), a+"|describe", c.pos(f.Pos()), a, "symbol, root and -s reach Chord.Describe", a+": the parsed symbol, the root note and the sharp preference (-s) are not passed to Describe")
 			c.check(hasFact(facts, "call note.ParseNote(") && hasFact(facts, "call input/ast.AccidentalValue("), a+"|root", c.pos(f.Pos()), a, "root = written letter + accidental", a+": the root is not parsed from the written letter and accidental")
+			// ... whenever an accidental is written: only its presence (and the errors of the steps before) decides whether it
+			// is appended, not whether the target also carries a chord symbol
+			for _, ci := range callsIn(f) {
+				if calleeName(ci.Common()) != "input/ast.AccidentalValue" {
+					continue
+				}
+				c.site(1)
+				extra := ""
+				for _, pc := range pathConds(ci.Block()) {
+					cmp, ok := pc.cond.(*ssa.BinOp)
+					if ok && (cmp.Op == token.EQL || cmp.Op == token.NEQ) && (isNilConst(cmp.X) || isNilConst(cmp.Y)) {
+						x := cmp.X
+						if isNilConst(x) {
+							x = cmp.Y
+						}
+						if isErrorType(x.Type()) {
+							continue
+						}
+						if n, _, ok := loadedField(x); ok && n == "Accidental" {
+							continue
+						}
+					}
+					extra = "the written accidental is appended to the root only under a further condition (`" + pc.cond.String() + "`): `Bbm7` is described as B m7"
+				}
+				c.check(extra == "", a+"|root-accidental", c.pos(ci.Pos()), a, "a written accidental always reaches the root", a+": "+extra)
+			}
 		case "cmd.textCmdConvSyllable.RunE":
 			facts := c.facts(f)
 			c.site(1)
